@@ -128,7 +128,8 @@ def check_case(ctx, case, drv, expect_reject=False):
                               expected="values", observed=str(e)[:200], kind="input")
                 continue
             try:
-                exp = a08.Oracle(js, pt, ranges).residuals(key)
+                orc = a08.Oracle(js, pt, ranges)
+                exp = orc.residuals(key)
             except a08.Inexact:
                 ctx.count("point-not-exact")
                 continue
@@ -146,6 +147,22 @@ def check_case(ctx, case, drv, expect_reject=False):
                 else:
                     continue                # an unlisted violation: reported, nothing to compare
             compare.append((pi, which, got, flat == got))
+            if which == "dae" and orc.delays:
+                # the delay-argument function: per delay operator the delayed expression and the duration
+                try:
+                    dgot = rm.delay_arguments(pt)
+                except Exception as e:
+                    dgot = "raised " + type(e).__name__
+                dexp = [[a08.qs(x)] for pair in orc.delays for x in pair]
+                ctx.count("delay-argument-evaluations")
+                if dgot != dexp:
+                    ctx.violation("delay-argument function differs from the operands of the delay operators",
+                                  dict(jcase, point=pi), expected=dexp, observed=dgot, kind="input")
+                elif drv is not None and ans["dae"]["gen"]["ok"]:
+                    for side in ("c", "m"):
+                        mv = ans["dae"]["delay"][pi][side]
+                        if mv != dgot:
+                            ctx.disagreement("delay-arguments-" + side, dict(jcase, point=pi), mv, dgot)
     ctx.count("exact-point-evaluations", exact_points)
     ctx.count("residual-entries-compared", entries)
     known_stream = stream in KNOWN_STREAMS
